@@ -443,7 +443,7 @@ def sset_cases(E, ctx):
 
     def clauses(ret):
         new_root = ops.seq_term_as(s.fields["root_hash"], "int")
-        extra = chain_clauses(ret, new_root) if unit_mode else []
+        extra = chain_clauses(ret, new_root)            # proved in unit mode, assumed (callee mode) by delete / []=
         return extra + [("view", mk_bool(dn(new_root, D, QP) == z3.If(agree(p, QP, D), specfn.keccak(V), dn(root, D, QP)))),
                 ("one-hash-per-level-is-returned", mk_bool(z3.Length(ops.seq_term(ret)) == D)),
                 ("new-root-is-stored", mk_bool(z3.Select(db.has, new_root))),
@@ -540,7 +540,17 @@ def write_api_cases(kind):
                     ("store-only-grows", mk_bool(grows(db.has, db.val, has0, val0)))]
 
         def ens(ret):
-            return [("one-hash-per-level-is-returned", mk_bool(z3.Length(ops.seq_term(ret)) == D))]
+            # delete returns what set(key, default) returned: the new path hashes root to leaf
+            rt = ops.seq_term(ret)
+            new_root = ops.seq_term_as(s.fields["root_hash"], "int")
+
+            def on_path_child(h, bit):
+                return z3.If(testbit(p, bit), R(h), L(h))
+            return [("one-hash-per-level-is-returned", mk_bool(z3.Length(rt) == D)),
+                    ("returned/first-is-the-child-of-the-new-root", mk_bool(on_path_child(new_root, D - 1) == rt[0])),
+                    ("returned/each-is-the-child-of-its-predecessor",
+                     mk_bool(z3.Implies(z3.And(GI >= 0, GI + 1 < D), on_path_child(rt[GI], D - 2 - GI) == rt[GI + 1]))),
+                    ("returned/last-is-the-hash-of-the-value", mk_bool(rt[D - 1] == specfn.keccak(V)))]
         upd = Case("updated", when=mk_bool(z3.And(ok, comp)), post=post, modifies=[db, (s, "root_hash")])
         if kind == "delete":
             upd.ensures = ens
